@@ -1,6 +1,6 @@
 (* C13 — bounded progress of close(): while close() waits for the peer's close frame its timeout is armed with
    a deadline at most one close timeout ahead (or has fired, with the wake-up queued); firing the timer queues
-   the wake-up; the wake-up after expiry/cancellation ends close() in that step; on the server a wake-up that
+   the wake-up; the wake-up after expiry/cancellation ends close() in that step; on both sides a wake-up that
    finds no close frame re-suspends under the same deadline. *)
 From Coq Require Import List NArith Bool Arith Lia.
 Import ListNotations.
@@ -55,7 +55,7 @@ Proof. unfold abnormal. rewrite tn_close_transport. reflexivity. Qed.
 Lemma tn_send_frame s f : tn (fst (send_frame s f)) = tn s.
 Proof. unfold send_frame. destruct (_ && _); [|destruct (tr_closing s)]; reflexivity. Qed.
 Lemma tn_writer_close s code : tn (fst (writer_close s code)) = tn s.
-Proof. unfold writer_close. pose proof (tn_send_frame s (FClose code)) as H. destruct (send_frame s (FClose code)). cbn [fst] in *. exact H. Qed.
+Proof. unfold writer_close. rewrite tn_send_frame. reflexivity. Qed.
 Lemma now_fut_done s t r : now (fut_done s t r) = now s.
 Proof. unfold fut_done. destruct (t_fut _); reflexivity. Qed.
 Lemma now_feed_data s m : now (feed_data s m) = now s.
@@ -67,7 +67,7 @@ Lemma TI_close_exc s t k : TIall s -> TIall (close_exc c s t k).
 Proof. intros H. unfold close_exc. apply TI_close_ret. eapply TIall_tn; [apply tn_abnormal|]. exact H. Qed.
 
 Lemma next_deadline_ok s d : d <= now s + c_close_tmo c -> next_deadline c s d <= now s + c_close_tmo c.
-Proof. intros H. unfold next_deadline. destruct (c_side c); [exact H|lia]. Qed.
+Proof. intros H. exact H. Qed.
 
 Lemma TI_close_read_loop buf : forall s t k d, TIall s -> d <= now s + c_close_tmo c -> TIall (close_read_loop c buf s t k d).
 Proof.
@@ -176,15 +176,13 @@ Proof.
     + destruct (is_timeout _).
       * apply TI_close_exc. eapply TIall_tn; [|exact H]; reflexivity.
       * apply TI_finish. eapply TIall_tn; [apply tn_abnormal|]. eapply TIall_tn; [|exact H]; reflexivity.
-    + assert (Hd : match c_side c with Server => match t_tmo (tasks s t) with Some d => d | None => now s + c_close_tmo c end
-                                   | Client => now s + c_close_tmo c end <= now s + c_close_tmo c).
-      { destruct (c_side c); [|lia]. destruct (t_tmo (tasks s t)) eqn:Et; [|lia].
+    + assert (Hd : match t_tmo (tasks s t) with Some d => d | None => now s + c_close_tmo c end <= now s + c_close_tmo c).
+      { destruct (t_tmo (tasks s t)) eqn:Et; [|lia].
         assert (Hp : is_close_read (t_pc (tasks s t)) = true) by (rewrite Epc; reflexivity).
         destruct (H t Hp) as [(d & Hd1 & Hd2)|[He _]].
         - rewrite Et in Hd1. inversion Hd1; subst. exact Hd2.
         - unfold was_cancelled in Ew. rewrite He in Ew. rewrite orb_true_r in Ew. discriminate. }
-      destruct fr; try (apply TI_close_exc; exact H);
-        (destruct (c_side c); [destruct (t_tmo _)|]; apply TI_close_read_resume; assumption).
+      destruct fr; try (apply TI_close_exc; exact H); apply TI_close_read_resume; assumption.
 Qed.
 
 Lemma tasks_fut_done_other s t r x : x <> t -> tasks (fut_done s t r) x = tasks s x.
@@ -345,29 +343,27 @@ Proof.
   rewrite W. destruct (is_timeout _); [apply pc_close_exc|eexists; apply pc_finish].
 Qed.
 
-(* (5) server: a normal wake-up either ends close() or re-suspends it under the SAME deadline *)
+(* (5) both sides: a normal wake-up either ends close() or re-suspends it under the SAME deadline *)
 Lemma pc_suspend_self s t p d : tasks (suspend s t p d) t = mkTask p None false d false.
 Proof. unfold suspend, upd_task. cbn. rewrite Nat.eqb_refl. reflexivity. Qed.
-Lemma close_read_loop_server_deadline c buf : forall s t k d,
-  c_side c = Server ->
+Lemma close_read_loop_deadline c buf : forall s t k d,
   (exists r, t_pc (tasks (close_read_loop c buf s t k d) t) = PDone r) \/
   (t_pc (tasks (close_read_loop c buf s t k d) t) = PCloseRead k /\ t_tmo (tasks (close_read_loop c buf s t k d) t) = Some d).
 Proof.
-  induction buf as [|m rest IH]; intros s t k d Hs; cbn [close_read_loop].
+  induction buf as [|m rest IH]; intros s t k d; cbn [close_read_loop].
   - destruct (q_eof s); [left; apply pc_close_exc|]. destruct (q_waiter s); [left; apply pc_close_exc|].
     right. rewrite pc_suspend_self. split; reflexivity.
-  - cbn zeta. unfold next_deadline. rewrite Hs. destruct m; try apply IH; try exact Hs. left. apply pc_close_ret.
+  - cbn zeta. unfold next_deadline. destruct m; try apply IH. left. apply pc_close_ret.
 Qed.
-Theorem server_wake_keeps_deadline c s t k d :
-  c_side c = Server ->
+Theorem wake_keeps_deadline c s t k d :
   t_pc (tasks s t) = PCloseRead k -> t_fut (tasks s t) = Some FOk -> t_tmo (tasks s t) = Some d ->
   t_expired (tasks s t) = false -> t_cancel (tasks s t) = false ->
   let s' := run_wake c s t in
   (exists r, t_pc (tasks s' t) = PDone r) \/ (t_pc (tasks s' t) = PCloseRead k /\ t_tmo (tasks s' t) = Some d).
 Proof.
-  intros Hs Ep Ef Et He Hc. unfold run_wake, was_cancelled. cbn zeta. rewrite Ep, Ef, He, Hc. cbn [orb].
-  rewrite Hs, Et. unfold close_read_resume. destruct (q_buf s) eqn:Eb; [left; apply pc_close_exc|].
-  rewrite <- Eb. apply close_read_loop_server_deadline. exact Hs.
+  intros Ep Ef Et He Hc. unfold run_wake, was_cancelled. cbn zeta. rewrite Ep, Ef, He, Hc. cbn [orb].
+  rewrite Et. unfold close_read_resume. destruct (q_buf s) eqn:Eb; [left; apply pc_close_exc|].
+  rewrite <- Eb. apply close_read_loop_deadline.
 Qed.
 
 (* ---- receive(): every terminating event wakes a blocked receive() that is the queue's registered waiter ---- *)
@@ -418,11 +414,11 @@ Proof.
   destruct (Nat.eqb_spec r t); [congruence|]. split; assumption.
 Qed.
 Lemma writer_close_ok s code : tr_closing s = false ->
-  writer_close s code = (set_w_closing (set_sent s (sent s ++ [FClose code])) true, false).
+  writer_close s code = (set_sent (set_w_closing s true) (sent s ++ [FClose code]), false).
 Proof.
-  intros T. unfold writer_close, send_frame. rewrite T.
+  intros T. unfold writer_close, send_frame. cbn [w_closing set_w_closing tr_closing sent]. rewrite T.
   replace (closing_write_allowed (frame_opcode (FClose code))) with true by reflexivity.
-  cbn [negb]. rewrite andb_false_r. reflexivity.
+  reflexivity.
 Qed.
 
 Theorem close_call_wakes c s t k code r :
@@ -433,7 +429,7 @@ Proof.
   intros Ew Ef Hn Hw Hside. unfold close_entry. destruct (c_side c).
   - destruct Hside as (Hc & Ht & Hcw). rewrite Hc.
     rewrite (writer_close_ok (mark_closed s) code) by exact Ht.
-    set (s2 := set_w_closing (set_sent (mark_closed s) (sent (mark_closed s) ++ [FClose code])) true).
+    set (s2 := set_sent (set_w_closing (mark_closed s) true) (sent (mark_closed s) ++ [FClose code])).
     replace (waiting s2) with true by (symmetry; exact Hw).
     replace (close_wait s2) with (@None nat) by (symmetry; exact Hcw).
     apply woken_suspend_other; [exact Hn|]. apply feed_wakes; [exact Ew|exact Ef].
